@@ -255,7 +255,9 @@ class SharesManager(BaseManager):
                     users=directory_entry.users or []
                 )
 
-            new_shared_directories.append(shared_directory)
+            # The same path might be configured more than once
+            if shared_directory not in new_shared_directories:
+                new_shared_directories.append(shared_directory)
 
         self._shared_directories = new_shared_directories
 
